@@ -286,7 +286,7 @@ def gen_namechars(tier):
 def gen_lists_cols(tier):
     """several choice lists x extra columns whose header is not an element name (dropped with a warning): the value may sit
     in the first list, a later list, or all of them"""
-    for hdr in ("my col", "a b c", " x"):
+    for hdr in ("my col", "a b c", " x", "pop\u00a02020", "pop\t2020", "pop\n2020", "a  b", "x\u2003y", "pop\u00a0 2020", "a\r\nb"):  # any white space between words
         for nlists in (1, 2, 3):
             for mask in range(1, 1 << nlists):
                 ch = []
